@@ -21,7 +21,7 @@ def showRateErr : RateErr → String
 
 def showRateRes : Except RateErr LRate → String
   | .ok r => s!"ok {r.interval} {r.quantity}"
-  | .error e => s!"err {showRateErr e}"
+  | .error e => s!"err {showRateErr e} 0 0"
 
 def showIntervalRes : Except IntervalErr Int → String
   | .ok i => s!"ok {i}"
